@@ -318,6 +318,41 @@ def bytes_names_family(sc, r, idx, reps):
     return fails
 
 
+def kind_change_family(sc, r, idx, reps):
+    """(582e492) source entries that used to be symbolic links and are real directories now: the destination still holds the links an
+    earlier run made, pointing out of the destination.  The directory's task replaces the link; the tasks of the directory's entries
+    must not run before it (they were written THROUGH the link with several workers).  Judged on contents: nothing below the links'
+    referents, the destination equal to the source, same result for every -j."""
+    base = os.path.join(sc.dir, "kc%d" % idx)
+    src, tpl = base + "/src", base + "/tpl"
+    n = r.randrange(120, 200)
+    os.makedirs(src); os.makedirs(tpl)
+    for k in range(n):
+        os.makedirs("%s/d%03d/sub" % (src, k))
+        for name in ("f", "sub/g"):
+            with open("%s/d%03d/%s" % (src, k, name), "wb") as f:
+                f.write(b"file %d %s\n" % (k, name.encode()))
+    world.sync_fs()
+    fails = []
+    for k, j in enumerate([1] + [r.choice([8, 16, 64]) for _ in range(reps)]):
+        dst, out = base + "/dst%d" % k, base + "/out%d" % k
+        os.makedirs(dst); os.makedirs(out)
+        for q in range(n):
+            os.makedirs("%s/d%03d" % (out, q))
+            os.symlink("%s/d%03d" % (out, q), "%s/d%03d" % (dst, q))
+        env = dict(os.environ); env.update(sc.env)
+        p = subprocess.run([world.SY, src + "/", dst + "/", "-j%d" % j, "-q"], env=env, stdout=subprocess.PIPE, stderr=subprocess.PIPE, timeout=300)
+        escaped = sum(len(fs) for _, _, fs in os.walk(out))
+        missing = [d for d in sorted(os.listdir(src)) if os.path.islink(os.path.join(dst, d)) or not os.path.isfile(os.path.join(dst, d, "f")) or not os.path.isfile(os.path.join(dst, d, "sub", "g"))]
+        if p.returncode != 0 or escaped or missing:
+            fails.append({"world": "kind-change-%d" % idx, "jobs": j, "family": "twin",
+                          "failure": {"why": "%d directories that replace destination symlinks, -j%d: exit %s, %d files written through the links (outside the destination), %d directories incomplete in the destination (e.g. %r); %s"
+                                             % (n, j, p.returncode, escaped, len(missing), missing[:3], p.stderr.decode("utf-8", "replace")[-200:]), "klass": None}})
+        shutil.rmtree(dst, ignore_errors=True); shutil.rmtree(out, ignore_errors=True)
+    shutil.rmtree(base, ignore_errors=True)
+    return fails
+
+
 def run(tier, seed):
     res = vlib.Result(PID, tier, seed)
     pr = proof_phase(res, PID)
@@ -337,6 +372,9 @@ def run(tier, seed):
         for bi in range(2 if tier == "quick" else 12):
             viol += bytes_names_family(sc, vlib.rng_for(seed, "C05-bn%d" % bi), bi, reps)
             stats["bytes_name_worlds"] = bi + 1
+        for ki in range(1 if tier == "quick" else 6):
+            viol += kind_change_family(sc, vlib.rng_for(seed, "C05-kc%d" % ki), ki, reps)
+            stats["kind_change_worlds"] = ki + 1
         for i in range(nworlds):
             out = run_world(sc, i, seed, reps, known, stats)
             viol += out["viol"]
